@@ -1842,7 +1842,7 @@ class GramStack(Stack):
 
         if ha in blockeds: # already blocked on this iteration
             laters.append((pkt, ha)) # keep sequential
-            return False  # blocked
+            return True  # skip it but keep servicing the other destinations
 
         try:
             count = self.handler.send(pkt.packed, ha)  # datagram always sends all
@@ -1880,8 +1880,8 @@ class GramStack(Stack):
                 again = self._serviceOneTxPkt(laters, blockeds)
                 if not again:
                     break
-            while laters:
-                self.txPkts.append(laters.popleft())
+            while laters:  # put back in front in original order
+                self.txPkts.appendleft(laters.pop())
 
     def serviceTxPktsOnce(self):
         '''
